@@ -383,12 +383,18 @@ def body_cart2sph(case, ctx):
         ctx.cls("pt:" + k)
     mode = case["center_mode"]
     ctx.cls("center:" + ("none" if case["center"] is None else mode))
+    arg = pts.copy()
+    if case.get("int_pts"):
+        # lattice points written as integers (integer dtype) about a (generally non-integer) centre
+        pts = np.rint(np.clip(pts, -1e6, 1e6))
+        arg = pts.astype(np.int32 if case["int_pts"] == "int32" else np.int64)
+        ctx.cls("points:integer-dtype")
     if case["center"] is None:
-        out = convert_cart_to_sph(pts.copy())
+        out = convert_cart_to_sph(arg)
     elif mode == "list":
-        out = convert_cart_to_sph(pts.copy(), [float(x) for x in c])
+        out = convert_cart_to_sph(arg, [float(x) for x in c])
     else:
-        out = convert_cart_to_sph(pts.copy(), c.copy())
+        out = convert_cart_to_sph(arg, c.copy())
     out = np.asarray(out, dtype=float)
     if out.shape != pts.shape:
         ctx.fail("cart2sph:shape", f"shape {out.shape}, expected {pts.shape}")
@@ -522,7 +528,8 @@ def _c2s_strategy():
         st.tuples(rad, coord).map(lambda t: ["negx", t[0], t[1]]),
     )
     center = st.one_of(st.none(), st.lists(coord, min_size=3, max_size=3), st.lists(coord, min_size=3, max_size=3))
-    return st.fixed_dictionaries({"center": center, "center_mode": st.sampled_from(["array", "list"]), "pts": st.lists(pt, min_size=1, max_size=10)})
+    return st.fixed_dictionaries({"center": center, "center_mode": st.sampled_from(["array", "list"]), "pts": st.lists(pt, min_size=1, max_size=10),
+                                  "int_pts": st.sampled_from([None, None, None, "int64", "int32"])})
 
 
 # pinned cases: every structured location at small l, and high l_max
